@@ -321,7 +321,7 @@ def dispatcher_checks(chk, want):
     from lingpy.align import pairwise as pw
     drv = common.Driver()
     rng = chk.rng
-    n = chk.n(400, 12000)
+    n = chk.n(1200, 24000)
     bad = []
     fails = []
 
@@ -334,7 +334,7 @@ def dispatcher_checks(chk, want):
     for it in range(n):
         c = al.gen_case(rng, maxlen=chk.n(7, 16), exact=rng.random() < 0.8, force_scale1=(want == 'opt'))
         mode = rng.choice(al.MODES if want == 'rows' else al.MODES[:3])
-        entry = rng.choice(['c.align_pair', 'c.align_pairs', 'c.align_pairwise', 'c.corrdist', 't.align_pair',
+        entry = rng.choice(['c.align_pair', 'c.align_pairs', 'c.align_pairs', 'c.align_pairs', 'c.align_pairwise', 'c.corrdist', 't.align_pair',
                             't.align_pairs', 't.align_pairwise', 'pw_align', 'nw_align', 'sw_align', 'we_align'])
         if rng.random() < 0.15:
             # restricted characters switched off by the empty string although the prosodic strings hold tones and boundaries at
@@ -390,6 +390,13 @@ def dispatcher_checks(chk, want):
                                         ([rng.choice([1.0, 1.5, 2.0, 0.5]) for _ in a], [rng.choice([1.0, 1.5, 2.0, 0.5]) for _ in b]),
                                         (''.join(rng.choice(pool) for _ in a), ''.join(rng.choice(pool) for _ in b)))
                                 chk.hist['align_pairs-batch: the same sequences with other prosody / weights are in the batch'] += 1
+                            elif kind < 0.8:
+                                # other words with the SAME prosodic strings but their own position weights (weights are the caller's:
+                                # nothing says they follow from the prosodic string)
+                                comp = (([rng.choice(syms) for _ in a], [rng.choice(syms) for _ in b]),
+                                        ([rng.choice([1.0, 1.5, 2.0, 0.5, 3.0]) for _ in a], [rng.choice([1.0, 1.5, 2.0, 0.5, 3.0]) for _ in b]),
+                                        (c['proA'], c['proB']))
+                                chk.hist['align_pairs-batch: other words with the same prosodic strings and other weights are in the batch'] += 1
                             at = rng.randrange(len(seqs) + 1)
                             seqs.insert(at, comp[0]); wts.insert(at, comp[1]); pros.insert(at, comp[2])
                             if at <= pos:
